@@ -1,3 +1,5 @@
+#[cfg(simple_dns_verif)]
+use simrt::shim_std as std;
 use std::collections::HashMap;
 use std::time::{Duration, Instant};
 
